@@ -38,7 +38,7 @@ ASSUMPTIONS = [
 EXPECTED_PROBES = [
     "cut-in-header-len", "cut-in-header-body", "cut-in-desc-len", "cut-in-desc-body", "cut-in-rec-len", "cut-in-rec-body",
     "cut-on-boundary", "gz-cut-in-gzip-header", "gz-cut-in-deflate", "gz-cut-in-trailer", "crash-with-nonempty-buffer",
-    "continue-lost-descriptor", "read-error-between-frames", "nested-record-stream",
+    "continue-lost-descriptor", "read-error-between-frames", "nested-record-stream", "two-faults-in-one-run",
 ]  # fmt: skip
 
 TYPES = ["string", "varint", "uint32", "boolean", "float", "bytes", "datetime", "string[]", "varint[]", "path", "net.ipaddress", "digest"]
@@ -51,7 +51,7 @@ def budget(tier):
 
 
 def wall_cap(tier):
-    return 240 if tier == "quick" else 3600
+    return 240 if tier == "quick" else 1500
 
 
 # -- generation ---------------------------------------------------------------------------------
@@ -147,7 +147,7 @@ def generate(rng, tier, index):
     }
     cap = (2048 if not thorough else 65536)
     plan = {"config": cfg, "pool": pool, "ops": ops, "mode": mode, "faults": "enumerate", "cap": cap,
-            "max_evals": 700 if not thorough else 12000, "sample_seed": rng.randrange(0, 1 << 30)}  # fmt: skip
+            "max_evals": 700 if not thorough else 5000, "sample_seed": rng.randrange(0, 1 << 30)}  # fmt: skip
     return plan
 
 
@@ -657,6 +657,9 @@ def execute(plan, keep_log=False):
 
         def one_read(device, attempted, acked, policy, fault, tagbase, probe_phase=True, variance=False, read_err=None):
             nonlocal evals
+            from ..driver import heartbeat
+
+            heartbeat()
             plain, gz_complete = recover_plain(device, gz)
             got, outcome = read_back(w, device, cfg, cfg["reader"], cfg["delivery"], gz, tag=tagbase)
             evals += 1
@@ -790,10 +793,30 @@ def execute(plan, keep_log=False):
                     if beneath_buffer and sizes[i] > 1:
                         m = r.choice([1, sizes[i] - 1, r.randrange(1, sizes[i])])
                         faults.append({"kind": "raw_write_short", "call": i, "accept": m, "then_error": r.random() < 0.5})
+            if not isinstance(spec, list) and cfg["policy"] == "continue":
+                # pairs of refused calls: some bugs need two faults (a retry queue that re-sends, ...)
+                singles = [f for f in faults if f["kind"] in ("raw_write_error", "fp_write_error") and not f.get("torn")]
+                pairs = []
+                for a in range(len(singles)):
+                    for d in (1, 2, 3):
+                        if a + d < len(singles):
+                            pairs.append((a, a + d))
+                if len(pairs) > 80:
+                    pairs = sorted(r.sample(pairs, 80))
+                for a, b in pairs:
+                    faults.append({"kind": "multi", "faults": [singles[a], singles[b]]})
             for fi, f in enumerate(faults):
                 wf = {}
                 fpf = {}
-                if f["kind"] == "raw_write_error":
+                parts = f["faults"] if f["kind"] == "multi" else [f]
+                if f["kind"] == "multi":
+                    w.probe("two-faults-in-one-run")
+                    for g in parts:
+                        if g["kind"] == "raw_write_error":
+                            wf[g["call"]] = {"kind": "error", "errno": g.get("errno", "ENOSPC"), "torn": 0}
+                        else:
+                            fpf[g["call"]] = g.get("errno", "ENOSPC")
+                elif f["kind"] == "raw_write_error":
                     wf[f["call"]] = {"kind": "error", "errno": f.get("errno", "ENOSPC"), "torn": f.get("torn", 0)}
                 elif f["kind"] == "fp_write_error":
                     fpf[f["call"]] = f.get("errno", "ENOSPC")
@@ -888,3 +911,29 @@ def shrink_candidates(plan):
 
 
 KNOWN = {}
+
+
+def mutate(plan, rng):
+    import copy
+
+    from ..driver import mutate_ops
+
+    p = mutate_ops(plan, rng)
+    had_close = any(o["op"] == "close" for o in p["ops"])
+    p["ops"] = [o for o in p["ops"] if o["op"] != "close"][:60] + ([{"op": "close"}] if had_close else [])
+    p["faults"] = "enumerate"
+    cfg = copy.deepcopy(p["config"])
+    r = rng.random()
+    if r < 0.25:
+        cfg["buffer_size"] = rng.choice([1, 3, 4, 5, 16, 64, 512, 8192])
+    elif r < 0.4:
+        cfg["reader"] = rng.choice(READER_STACKS)
+        cfg["delivery"] = gen_delivery(rng, cfg["reader"])
+    elif r < 0.5:
+        p["mode"] = rng.choice(["cuts", "write_faults", "crash"])
+        if p["mode"] != "write_faults":
+            cfg["policy"] = "fail-stop"
+            cfg["fault_layer"] = "raw"
+    p["config"] = cfg
+    p["sample_seed"] = rng.randrange(1 << 30)
+    return p
